@@ -468,6 +468,12 @@ def run(ctx, rep):
     r10d(ctx, rep)
     from . import numeric
     numeric.r16e(ctx, rep, rule="R10f")
+    from . import C18
+    from .common import borrow
+    borrow(ctx, rep, "R10g", "a quoted symbol survives the trip through the heap: literal data is interned through the symbol table, so the "
+           "table must be edited wherever a cell is freed (C18's R18a one way in, R18b table follows the sweeper, R18b2 only "
+           "Heap::free frees). A stale entry makes a later (quote d) evaluate to whatever reused the slot.",
+           [C18.r18a, C18.r18b, C18.r18b2], ["R18a", "R18b"])
     rep.not_decided += ["numbers (formatting switches at 1E10 and {:e} are run-time behaviour of std/num)",
                         "symbols and delimiters", "container nesting and idempotence of write . read",
                         "the trip source text -> heap -> result -> text for concrete data"]
